@@ -272,7 +272,9 @@ void run()
             gsim::probe("trip.creator_handed_over");
         }
     }
-    {
+    if (!st.is_static) {
+        // (not for the static lines: touching them here would pre-empt their first use by
+        // the threads, which is part of what the static mode examines)
         gsim::Oracle o;
         for (int i = 0; i < st.nlines; i++) st.shared_det.push_back(make_detector(i));
     }
